@@ -12,9 +12,10 @@ DetailedPlacement DetailedPlacement::fromIspdCircuit(const Circuit &circuit) {
   std::vector<Rectangle> obstacles;
   for (int c = 0; c < circuit.nbCells(); ++c) {
     if (circuit.cellIsFixed_[c]) {
+      // Fixed obstructions are already removed from the rows by computeRows;
+      // other fixed cells do not block anything
       widths[c] = -1;
-    }
-    if (circuit.cellHeight_[c] != rowHeight) {
+    } else if (circuit.cellHeight_[c] != rowHeight) {
       widths[c] = -1;
       Rectangle pl = circuit.placement(c);
       obstacles.push_back(pl);
